@@ -28,9 +28,24 @@ pub struct CryptoLog {
     pub hpke_seals: Vec<(Vec<u8>, Vec<u8>)>,
     /// (key, nonce) of every `aead_seal`
     pub aead_seals: Vec<(Vec<u8>, Vec<u8>)>,
+    /// every successful `aead_seal` with what the provider was given and what it returned (C05: classification of the seals
+    /// into message content / sender data / welcome by the AAD, generation and reuse guard from the sender-data plaintext)
+    pub seal_recs: Vec<SealRec>,
     pub enabled: bool,
     /// a malicious member's provider: the next `kem_generate` returns this public key (with a fresh secret)
     pub force_kem_pub: Option<Vec<u8>>,
+}
+
+/// One `aead_seal` call: key, nonce as passed (for message content: ratchet nonce XOR reuse guard), AAD, length and the first
+/// 16 bytes of the plaintext (the 12-byte sender data is logged completely), the returned ciphertext.
+#[derive(Clone, Debug)]
+pub struct SealRec {
+    pub key: Vec<u8>,
+    pub nonce: Vec<u8>,
+    pub aad: Option<Vec<u8>>,
+    pub pt_len: usize,
+    pub pt_head: Vec<u8>,
+    pub ct: Vec<u8>,
 }
 
 pub type SharedCryptoLog = Arc<Mutex<CryptoLog>>;
@@ -80,7 +95,21 @@ impl<C: CipherSuiteProvider + Clone> CipherSuiteProvider for RecCs<C> {
                 l.aead_seals.push((key.to_vec(), nonce.to_vec()));
             }
         }
-        self.inner.aead_seal(key, data, aad, nonce)
+        let r = self.inner.aead_seal(key, data, aad, nonce);
+        if let Ok(ct) = &r {
+            let mut l = self.log.lock().unwrap();
+            if l.enabled {
+                l.seal_recs.push(SealRec {
+                    key: key.to_vec(),
+                    nonce: nonce.to_vec(),
+                    aad: aad.map(|a| a.to_vec()),
+                    pt_len: data.len(),
+                    pt_head: data[..data.len().min(16)].to_vec(),
+                    ct: ct.clone(),
+                });
+            }
+        }
+        r
     }
     fn aead_open(&self, key: &[u8], ct: &[u8], aad: Option<&[u8]>, nonce: &[u8]) -> Result<Zeroizing<Vec<u8>>, Self::Error> {
         self.inner.aead_open(key, ct, aad, nonce)
